@@ -229,7 +229,9 @@ func GenHosts(r *core.Rand) string {
 // HostsMaxToken is bufio.MaxScanTokenSize: a line of this many bytes (without its \n) ends the scan.
 const HostsMaxToken = 64 * 1024
 
-func isHostsSpace(c byte) bool { return c == ' ' || c == '\t' || c == '\n' || c == '\v' || c == '\f' || c == '\r' }
+func isHostsSpace(c byte) bool {
+	return c == ' ' || c == '\t' || c == '\n' || c == '\v' || c == '\f' || c == '\r'
+}
 
 // hostsFieldsASCII: strings.Fields over ASCII white space only (the generator writes no other space characters).
 func hostsFieldsASCII(s string) []string {
